@@ -847,6 +847,18 @@ func (r *rpf) expr(e ast.Expr) *Val {
 		// both); the capacity is cut at hi, so an append to the result reallocates instead of writing into the
 		// original's tail
 		return &Val{K: VList, L: base.L[lo:hi:hi], T: base.T, Local: base.Local}
+	case *ast.TypeAssertExpr:
+		// x.(T) on a folded value: holds when the value has the basic kind asserted (a hint value given as a string)
+		if x.Type != nil {
+			v := r.expr(x.X)
+			if bt, ok := info.TypeOf(x.Type).Underlying().(*types.Basic); ok {
+				switch {
+				case bt.Info()&types.IsString != 0 && v.K == VStr, bt.Info()&types.IsInteger != 0 && v.K == VInt, bt.Info()&types.IsBoolean != 0 && v.K == VBool:
+					return v
+				}
+			}
+			rpfFail("%s: type assertion outside the pure fragment", r.c.pos(x.Pos()))
+		}
 	case *ast.UnaryExpr:
 		if x.Op == token.AND {
 			if _, ok := x.X.(*ast.CompositeLit); ok {
